@@ -107,12 +107,16 @@ Proof.
   eapply frame_trans; [by apply commit_op_frame|by apply IH].
 Qed.
 
-(* no statement holds an Allocate operation *)
-Definition no_alloc_ops (s : sess) : Prop :=
-  forall sid l, stmts s !! sid = Some l -> Forall (fun o => op_kind o <> KAllocate) l.
+(* SS: the statements the history works with (preempt / reclaim create their statements fresh; an
+   earlier `allocate` may have left KEPT statements with Allocate operations: they are outside SS
+   and the history never names them).  No statement of SS holds an Allocate operation *)
+Variable SS : positive -> Prop.
 
-Lemma no_alloc_default s sid : no_alloc_ops s -> Forall (fun o => op_kind o <> KAllocate) (default [] (stmts s !! sid)).
-Proof. intros H. destruct (stmts s !! sid) as [l|] eqn:E; [by eapply H|constructor]. Qed.
+Definition no_alloc_ops (s : sess) : Prop :=
+  forall sid l, SS sid -> stmts s !! sid = Some l -> Forall (fun o => op_kind o <> KAllocate) l.
+
+Lemma no_alloc_default s sid : SS sid -> no_alloc_ops s -> Forall (fun o => op_kind o <> KAllocate) (default [] (stmts s !! sid)).
+Proof. intros HS H. destruct (stmts s !! sid) as [l|] eqn:E; [by eapply H|constructor]. Qed.
 
 Lemma no_alloc_same s s' : stmts s' = stmts s -> no_alloc_ops s -> no_alloc_ops s'.
 Proof. intros E H sid l. rewrite E. apply H. Qed.
@@ -120,13 +124,15 @@ Proof. intros E H sid l. rewrite E. apply H. Qed.
 Lemma no_alloc_insert s s' sid l : stmts s' = <[sid := l]> (stmts s) ->
   Forall (fun o => op_kind o <> KAllocate) l -> no_alloc_ops s -> no_alloc_ops s'.
 Proof.
-  intros E Hl H sid' l'. rewrite E. intros [[<- <-]|[_ E']]%lookup_insert_Some; [done|by eapply H].
+  intros E Hl H sid' l' HS. rewrite E. intros [[<- <-]|[_ E']]%lookup_insert_Some; [done|by eapply H].
 Qed.
 
-(* the operations preempt / reclaim (and any eviction-only plugin action) are made of *)
+(* the operations preempt / reclaim (and any eviction-only plugin action) are made of, on statements of SS *)
 Definition evict_alphabet (o : op) : Prop :=
   match o with
   | OAllocate _ _ _ | OSsnAllocate _ _ | ORecover _ _ => False
+  | OPipeline sid _ _ | OEvict sid _ | OEvictClone sid _ | ODiscard sid | OCommit sid | OSave sid _ => SS sid
+  | OMerge sid src => SS sid /\ SS src
   | _ => True
   end.
 
@@ -161,11 +167,11 @@ Proof.
     unfold stmt_discard. destruct (undo_fold_frame (rev (default [] (stmts s !! sid))) s) as [B S]. simpl.
     split; [done|]. eapply no_alloc_insert; [reflexivity|constructor|by eapply no_alloc_same].
   - (* OCommit *)
-    unfold stmt_commit. destruct (commit_fold_frame (default [] (stmts s !! sid)) s (no_alloc_default s sid Hn)) as [B S]. simpl.
+    unfold stmt_commit. destruct (commit_fold_frame (default [] (stmts s !! sid)) s (no_alloc_default s sid Ha Hn)) as [B S]. simpl.
     split; [done|]. eapply no_alloc_insert; [reflexivity|constructor|by eapply no_alloc_same].
   - (* OMerge *)
     unfold stmt_merge. case_bool_decide; [done|]. simpl. split; [done|].
-    intros sid' l'. simpl.
+    destruct Ha as [Ha1 Ha2]. intros sid' l' HS'. simpl.
     intros [[<- <-]|[_ [[<- <-]|[_ E]]%lookup_insert_Some]]%lookup_insert_Some.
     + constructor.
     + apply Forall_app. split; by apply no_alloc_default.
